@@ -318,6 +318,11 @@ func (rn *runner) relOne(c relCase) {
 		rn.violate("impl-violation", "release:second-close-succeeds", "release close2 "+c.Call,
 			"a second Close reported success: "+c.key(), impl, "", c.input())
 	}
+	if ro.hit && (strings.HasPrefix(c.Inject, "flock:error=ENOLCK:when=1") || strings.Contains(c.Inject, ";flock:error=ENOLCK:when=1")) && outc == "ok" {
+		// C06_no_file_without_lock: no success unless the lock request succeeded
+		rn.violate("impl-violation", "release:success-although-the-lock-request-failed", "release nolock "+c.Call,
+			"the lock request (flock) failed with ENOLCK, yet the call reported success: "+c.key(), impl, "err (C06_no_file_without_lock)", c.input())
+	}
 	if ro.held {
 		rn.violate("impl-violation", "release:lock-still-held-after-return", "release held "+c.Call,
 			"the call has returned ("+outc+") but another process cannot take the exclusive lock: the lock was not released by the call ("+c.key()+")",
